@@ -65,7 +65,7 @@ fn c17_change_cursor_bounds() {
     let count: usize = kani::any();
     let size: usize = kani::any();
     kani::assume(size == 4 || size == 8 || size == 16 || size == usize::MAX / 2);
-    let r = c.read_values(count, size, |b| Ok::<u8, Error>(b[0]));
+    let r = c.read_values(count, size, |b| Ok::<u32, Error>(b[0] as u32));
     match &r {
         Ok(v) => {
             assert!(r0.is_ok() || true);
@@ -124,4 +124,108 @@ pub(crate) fn mk_base<I, T: Copy>(
 }
 pub(crate) fn with_prev<T>(current: T, previous: T) -> WithPrev<T> {
     WithPrev { current, previous }
+}
+
+// ---------------------------------------------------------------------------------------------
+// Change-record parser with *concrete element counts* (symbolic-length collects exhaust memory in
+// symbolic execution): record = stamp, prev_stored_len, stored_len, truncated_count, truncated
+// values, prev_pushed_len, prev_pushed values, pushed_len, pushed values.  Symbolic: every value
+// and scalar field, and the length `n` at which the record is cut off (truncation at every offset).
+fn build_record(tc: usize, pp: usize, pu: usize, prev_stored: u64) -> ([u8; 72], usize) {
+    let mut b = [0u8; 72];
+    let vals: [u8; 72] = kani::any();
+    let mut o = 0;
+    let put = |b: &mut [u8; 72], o: &mut usize, x: u64| {
+        b[*o..*o + 8].copy_from_slice(&x.to_le_bytes());
+        *o += 8;
+    };
+    put(&mut b, &mut o, kani::any()); // stamp
+    put(&mut b, &mut o, prev_stored);
+    put(&mut b, &mut o, kani::any()); // stored_len (ignored by the parser)
+    put(&mut b, &mut o, tc as u64);
+    let mut i = 0;
+    while i < 4 * tc { b[o + i] = vals[o + i]; i += 1; }
+    o += 4 * tc;
+    put(&mut b, &mut o, pp as u64);
+    let mut i = 0;
+    while i < 4 * pp { b[o + i] = vals[o + i]; i += 1; }
+    o += 4 * pp;
+    put(&mut b, &mut o, pu as u64);
+    let mut i = 0;
+    while i < 4 * pu { b[o + i] = vals[o + i]; i += 1; }
+    o += 4 * pu;
+    (b, o)
+}
+
+fn parse_body(tc: usize, pp: usize, pu: usize) {
+    let prev_stored: u64 = kani::any();
+    let (rec, full) = build_record(tc, pp, pu, prev_stored);
+    let n: usize = kani::any();
+    kani::assume(n <= full);
+    let mut c = ChangeCursor::new(&rec[..n]);
+    let r = ReadWriteBaseVec::<usize, u32>::parse_change_data(&mut c, 4, |b| u32::from_bytes(b));
+    match &r {
+        Ok(d) => {
+            // only the complete record (or one cut inside the ignored trailing pushed values) parses
+            assert!(n == full);
+            assert!(prev_stored >= tc as u64);
+            assert!(d.truncated_values.len() == tc && d.prev_pushed.len() == pp);
+            assert!(d.prev_stored_len as u64 == prev_stored && d.truncated_start as u64 == prev_stored - tc as u64);
+            if tc > 0 {
+                assert!(d.truncated_values[0] == u32::from_le_bytes(rec[32..36].try_into().unwrap()));
+            }
+            if pp > 0 {
+                let o = 32 + 4 * tc + 8;
+                assert!(d.prev_pushed[0] == u32::from_le_bytes(rec[o..o + 4].try_into().unwrap()));
+            }
+        }
+        Err(e) => {
+            // a truncated record, or a truncated count exceeding the previous length: refused
+            assert!(n < full || prev_stored < tc as u64);
+            assert!(matches!(e, Error::WrongLength { .. } | Error::Underflow | Error::Overflow));
+        }
+    }
+    kani::cover!(r.is_ok(), "complete record parsed");
+    kani::cover!(r.is_err() && n + 1 == full, "record cut one byte short refused");
+    core::mem::forget(r);
+}
+
+/// One length field overwritten with an out-of-range value: refused without allocating for it
+/// (the allocation stubs panic like the real ones on capacity overflow and assert the bound).
+fn badcount_body(which: u8) {
+    let (mut rec, full) = build_record(1, 1, 0, 5);
+    let bad: u64 = kani::any();
+    kani::assume(bad > 64);
+    let off = match which { 0 => 24, 1 => 32 + 4, _ => 32 + 4 + 8 + 4 };
+    rec[off..off + 8].copy_from_slice(&bad.to_le_bytes());
+    let mut c = ChangeCursor::new(&rec[..full]);
+    let r = ReadWriteBaseVec::<usize, u32>::parse_change_data(&mut c, 4, |b| u32::from_bytes(b));
+    assert!(r.is_err());
+    kani::cover!(bad == u64::MAX, "count = u64::MAX");
+    kani::cover!(bad == (1u64 << 62), "count whose byte size overflows");
+    core::mem::forget(r);
+}
+
+macro_rules! parse_h {
+    ($( $name:ident = $body:ident($($a:expr),*); )*) => {
+        $(
+            #[kani::proof]
+            #[kani::unwind(13)]
+            #[kani::stub(alloc::fmt::format, stubs::format_stub)]
+            #[kani::stub(std::vec::Vec::<T>::with_capacity, stubs::with_capacity_stub)]
+            #[kani::stub(std::vec::Vec::<T>::reserve, stubs::reserve_stub)]
+            fn $name() {
+                $body($($a),*);
+            }
+        )*
+    };
+}
+parse_h! {
+    c16_parse_t0p0 = parse_body(0, 0, 0);
+    c16_parse_t1p0 = parse_body(1, 0, 1);
+    c16_parse_t0p2 = parse_body(0, 2, 0);
+    c16_parse_t2p1 = parse_body(2, 1, 1);
+    c16_parse_bad_truncated_count = badcount_body(0);
+    c16_parse_bad_prev_pushed_len = badcount_body(1);
+    c16_parse_bad_pushed_len = badcount_body(2);
 }
